@@ -21,7 +21,7 @@ C = {
          'Every emitted file of every pool protocol (plus identifier-shape and option-omitted lanes) is handed to its tool-chain; drivers naming every declared type/member are built; placeholder markers are scanned.', TB),
  'C08': ('exploration', 'metamorphic monitor: byte equality of six file maps across meaning-preserving rewrites', '4/C08',
          'Canonical print vs. 15 rewrite sets (aliases, string/char[], zchar vs NUL pad, explicit defaults, attribute placement, key lists, MetaData inlining, separators, docs, comments, layout) at all/random/single-kind sites.', 'trusted base: the harness printer produces texts that mean the same (each rewrite is one of the equivalences the property lists)'),
- 'C09': ('exploration', 'token/comment-sequence monitor with an independent lexer + compile equality; exhaustive token-boundary comment matrix', '4/C09',
+ 'C09': ('exploration', 'token/comment-sequence monitor with an independent lexer + compile equality; exhaustive token-boundary comment matrix; file-mode monitor over `format -f` runs of the real CLI (loose valid files, invalid files)', '4/C09',
          'Texts are printed from harness-owned token lists; the formatter output is re-lexed by an independent lexer and compared; comment-boundary matrix over 3 grammar-coverage protocols is enumerated completely; invalid texts must come back unchanged with an error.', 'trusted base: independent lexer written from PacketDsl.g4 (self-checked against the generator token list on every input)'),
  'C10': ('exploration', 'relational monitor: format∘format = format; format∘relayout = format', '4/C10',
          'String equality over boundary-matrix texts and pool texts x 8 (quick) / 30 (thorough) relayouts that keep comments on their token\'s line.', 'trusted base: relayout only changes spaces/tabs/line breaks (harness layout engine)'),
@@ -35,7 +35,7 @@ C = {
          'Exhaustive in generator orders and flag subsets per protocol; protocols (fixed-string-rich) are sampled.', 'trusted base: verifapi.Snapshot (reflective deep dump with pointer identities)'),
  'C15': ('exploration', 'execution monitor: emitted Lua dissector in a Lua 5.3 host over a mock Wireshark API; tree:add events, tvb reads, final offset via debug.sethook', '4/C15',
          'Runs the dissector on reference bytes and compares (field, offset, length) events, prefix reads and the final offset with the reference layout.', 'trusted base: Wireshark API mock (Proto/ProtoField/Tvb/TvbRange/TreeItem semantics incl. range bounds and UInt64 userdata), reference layout'),
- 'C16': ('exploration', 'differential monitor: CLI stdout / file / C string vs in-process library result; written tree vs generator file maps; strace for writes elsewhere', '4/C16',
+ 'C16': ('exploration', 'differential monitor: CLI stdout / file / C string vs in-process library result; written tree vs generator file maps; strace for writes elsewhere; call-history monitor on the C export (ASan host, repeated and interleaved calls in one process)', '4/C16',
          'Every formatter entry point on valid and invalid texts, compile with/without the subcommand word over flag subsets and output-path shapes, byte-for-byte against the library results.', 'trusted base: verifapi (same parse/generate/format steps as the CLI), strace, ASan host'),
  'C17': ('exploration', 'emitted self-tests built and run by each language\'s own runner (go test+testify, rustc --test, javac+JUnit4 stand-in, unittest, clang++ ASan + gtest stand-in)', '4/C17',
          'Builds and runs every emitted self-test of the pool protocols; checks every declared packet has a test.', TB),
